@@ -25,11 +25,14 @@ fn deserialize_env(s: &str) -> Result<HashMap<String, String>, String> {
 }
 
 fn serialize_env(env: &HashMap<String, String>) -> String {
-    let mut s = String::new();
-    for (key, value) in env {
-        s.push_str(&format!("{}={}\n", key, value));
-    }
-    s
+    // one variable per line, sorted, and no trailing newline: that would be
+    // printed as a blank line, which ends the paragraph
+    let mut vars = env
+        .iter()
+        .map(|(key, value)| format!("{}={}", key, value))
+        .collect::<Vec<_>>();
+    vars.sort();
+    vars.join("\n")
 }
 
 fn deserialize_version(s: &str) -> Result<debversion::Version, String> {
